@@ -11,8 +11,7 @@ package zkenc
 
 //@ func (*Proof).Verify
 //@   nopanic[C05]
-//@   modifies nothing
-//@   allocates
+//@   modifies hstate(hash)
 //@   requires group != nil && hash != nil && hash.h != nil && public.K != nil && pkok(public.Prover) && pedok(public.Aux)
 
 //@ func challenge
